@@ -50,6 +50,23 @@ def representatives(seed):
         "m-2d": np.array([[1, 2], [3, 4]], dtype="timedelta64[us]"), "m-empty": np.array([], dtype="timedelta64[ns]"), "m-nat": np.array(["NaT", 3], dtype="timedelta64[ns]"),
         "U-nonascii": np.array(["µs", "φ", "", "a b", "Hz/µs^2", "σ⁰"]), "U-0d": np.array("deg"), "U-2d": np.array([["a", "bc"], ["", "d"]]), "U-empty": np.array([], dtype="<U1"),
     }
+    # per-line columns as long as the images of real scenes (thousands of lines: an encoder may treat long columns differently), around the
+    # sizes 2^8 / 2^12 / 2^16: times running backwards from the first line (all offsets negative) and forwards, NaT inside, integers
+    # with a negative minimum and a small maximum, wide integers, floats, booleans
+    t0 = np.datetime64("2019-07-01T10:20:30.123456789", "ns")
+    for n in (255, 256, 257, 4095, 4096, 4097, 5000, 65536, 65537):
+        k_ = np.arange(n, dtype="int64")
+        arrs[f"M-backwards-{n}"] = t0 - (k_ * 400123).astype("timedelta64[ns]")
+        arrs[f"M-forwards-{n}"] = t0 + (k_ * 400123).astype("timedelta64[ns]")
+        zig = t0 + ((k_ % 7 - 3) * 1000000007).astype("timedelta64[ns]")
+        zig[n // 2] = np.datetime64("NaT")
+        arrs[f"M-zigzag-nat-{n}"] = zig
+        arrs[f"i-neg-smallmax-{n}"] = -(k_ % 300)
+        arrs[f"i-wide-{n}"] = (k_ - n // 2) * (2**40 + 1)
+        arrs[f"u-byte-{n}"] = (k_ % 256).astype("uint16")
+        arrs[f"f-{n}"] = np.where(k_ % 5 == 0, np.nan, (k_ - 7) / 3.0)
+        arrs[f"b-{n}"] = (k_ % 3 == 0)
+        arrs[f"m-neg-{n}"] = (-(k_ % 129) * 7).astype("timedelta64[ns]")
     for k, a in arrs.items():
         dims = ["x", "y"][: a.ndim]
         out[f"array:{k}"] = V(dims, a, {"units": "µs"})
